@@ -33,6 +33,18 @@ CONTRACTS = os.path.join(VERIF, 'contracts')
 REPO_SRC = os.environ.get('VERIF_REPO_SRC', '/repo/src')
 
 
+LENIENT = [False]
+SKIPPED = []
+
+
+def soft_drift(msg):
+    """In lenient mode a lost hint is skipped (and recorded); otherwise it is a Drift."""
+    if LENIENT[0]:
+        SKIPPED.append(msg)
+        return True
+    raise Drift(msg)
+
+
 class Drift(Exception):
     """Template and source no longer line up (lost item / loop / anchor)."""
 
@@ -58,7 +70,7 @@ def parse_opts(words):
     return opts
 
 
-REWRITE_RE = re.compile(r'rewrite\s+(R\d+)\s+<<<(.*?)>>>\s*=>\s*<<<(.*?)>>>(?:\s+count=(\d+))?\s*$', re.S)
+REWRITE_RE = re.compile(r'rewrite\s+(R\d+)\s+<<<(.*?)>>>\s*=>\s*<<<(.*?)>>>(?:\s+count=(\d+|any))?\s*$', re.S)
 
 
 def parse_fn_block(lines, i, end_marker='end'):
@@ -101,7 +113,7 @@ def parse_fn_block(lines, i, end_marker='end'):
                         occ = int(w[1:])
                 blk.rewrites.append(('R5:' + kind, None, None, occ))
                 cur = None
-            elif words[0] in ('loop-start', 'loop-end'):
+            elif words[0] in ('loop-start', 'loop-end', 'after-loop'):
                 cur = []
                 blk.anchors.append((words[0], '', int(words[1]), cur))
             elif words[0] == 'r5-proof':
@@ -118,7 +130,7 @@ def parse_fn_block(lines, i, end_marker='end'):
                 blk.anchors.append((m.group(1), m.group(2), int(m.group(4) or 1), cur))
             elif words[0] == 'rewrite':
                 m = REWRITE_RE.match(body)
-                blk.rewrites.append((m.group(1), m.group(2), m.group(3), int(m.group(4) or 1)))
+                blk.rewrites.append((m.group(1), m.group(2), m.group(3), -1 if m.group(4) == 'any' else int(m.group(4) or 1)))
                 cur = None
             elif words[0] == 'nested':
                 sub, i2 = parse_fn_block(lines, i + 1, 'endnested')
@@ -627,30 +639,37 @@ def annotate_fn(sf, item, blk, counts, meta, mode, qual_name, extra_ensures=None
         body = body[:bi.start] + 'fn %s() {}' % key + body[bi.end:]
     for nm in blk.nested:
         if '__VX_NESTED_%s__' % nm not in placeholders:
-            raise Drift('nested fn %s not found in %s' % (nm, qual_name))
+            soft_drift('nested fn %s not found in %s' % (nm, qual_name))
 
     # rewrites
     for rule, old, new, cnt in blk.rewrites:
         if rule.startswith('R5:'):
-            body = r5_expand(body, rule[3:], cnt, qual_name)
-            counts.bump('R5')
+            try:
+                body = r5_expand(body, rule[3:], cnt, qual_name)
+                counts.bump('R5')
+            except Drift as e:
+                soft_drift(str(e))
             continue
         n = body.count(old) + sig_text.count(old)
-        if n != cnt:
-            raise Drift('%s: rewrite %s expects %d match(es) of %r, found %d' % (qual_name, rule, cnt, old, n))
+        if n != cnt and cnt != -1:
+            soft_drift('%s: rewrite %s expects %d match(es) of %r, found %d' % (qual_name, rule, cnt, old, n))
+        if n == 0 and cnt == -1:
+            continue
         body = body.replace(old, new)
         sig_text = sig_text.replace(old, new)
-        counts.bump(rule, cnt)
+        counts.bump(rule, max(cnt, n) if cnt == -1 else cnt)
 
     body = apply_ref_patterns(body, counts)
 
     # loops
     loops = find_loops(body)
     if blk.loops and max(blk.loops) > len(loops):
-        raise Drift('%s: contract names loop %d but the body has %d loops' % (qual_name, max(blk.loops), len(loops)))
+        soft_drift('%s: contract names loop %d but the body has %d loops' % (qual_name, max(blk.loops), len(loops)))
     inserts = []
     marker_text = {}
     for n, (iter_name, lines) in blk.loops.items():
+        if n > len(loops):
+            continue
         lp = loops[n - 1]
         inv_text = '\n'.join(lines)
         fmeta['n_invariants'] += len([c for c in split_clauses(lines) if c[0] in ('invariant', 'invariant_except_break', 'ensures')])
@@ -658,24 +677,31 @@ def annotate_fn(sf, item, blk, counts, meta, mode, qual_name, extra_ensures=None
         marker_text['/*@L%d@*/' % n] = '\n' + inv_text + '\n'
         if iter_name:
             if lp['kind'] != 'for' or lp['in_end'] is None:
-                raise Drift('%s: loop %d is not a for loop' % (qual_name, n))
+                soft_drift('%s: loop %d is not a for loop' % (qual_name, n))
+                continue
             inserts.append((lp['in_end'], '/*@I%d@*/' % n))
             marker_text['/*@I%d@*/' % n] = ' %s:' % iter_name
     for where, anchor, occ, lines in blk.anchors:
-        if where in ('loop-start', 'loop-end'):
+        if where in ('loop-start', 'loop-end', 'after-loop'):
             if occ > len(loops):
-                raise Drift('%s: %s %d but the body has %d loops' % (qual_name, where, occ, len(loops)))
+                soft_drift('%s: %s %d but the body has %d loops' % (qual_name, where, occ, len(loops)))
+                continue
             lp = loops[occ - 1]
             btoks = lex(body)
             k0 = [k for k, t in enumerate(btoks) if t.start == lp['brace'] and t.kind == 'punct']
             cl = match_close(btoks, k0[0])
-            key = '/*@%s%d@*/' % ('LS' if where == 'loop-start' else 'LE', occ)
+            key = '/*@%s%d@*/' % ({'loop-start': 'LS', 'loop-end': 'LE', 'after-loop': 'LA'}[where], occ)
             txt = '\n' + '\n'.join(lines) + '\n'
             if key in marker_text:
                 marker_text[key] += txt
             else:
                 marker_text[key] = txt
-                inserts.append((lp['brace'] + 1, key) if where == 'loop-start' else (btoks[cl].start, key))
+                if where == 'loop-start':
+                    inserts.append((lp['brace'] + 1, key))
+                elif where == 'loop-end':
+                    inserts.append((btoks[cl].start, key))
+                else:
+                    inserts.append((btoks[cl].end, key))
             counts.bump('R3')
     # at equal offsets the loop-start marker must come after the invariant marker
     order = {'L': 0, 'I': 0}
@@ -686,11 +712,12 @@ def annotate_fn(sf, item, blk, counts, meta, mode, qual_name, extra_ensures=None
 
     # anchors
     for where, anchor, occ, lines in blk.anchors:
-        if where in ('loop-start', 'loop-end'):
+        if where in ('loop-start', 'loop-end', 'after-loop'):
             continue
         if where == 'r5-proof':
             if '/*@R5E@*/' not in body:
-                raise Drift('%s: r5-proof without an R5 map expansion' % qual_name)
+                soft_drift('%s: r5-proof without an R5 map expansion' % qual_name)
+                continue
             body = body.replace('/*@R5E@*/', '\n' + '\n'.join(lines) + '\n', 1)
             counts.bump('R3')
             continue
@@ -715,11 +742,12 @@ def annotate_fn(sf, item, blk, counts, meta, mode, qual_name, extra_ensures=None
         where = where.rstrip('?')
         try:
             blines, li = line_anchor(body, anchor, occ)
-        except Drift:
+        except Drift as e:
             if optional:
                 counts.bump('optional-anchor-skipped')
                 continue
-            raise
+            soft_drift('%s: %s' % (qual_name, e))
+            continue
         ins = list(lines)
         if where == 'after-block':
             off = sum(len(l) + 1 for l in blines[:li])
